@@ -8,6 +8,7 @@ import (
 	"verifharness/core"
 	"verifharness/gen"
 	"verifharness/lib"
+	rm "verifharness/refmodel"
 )
 
 // C20 — zero values and failed-parse results are safe to touch.
@@ -178,6 +179,129 @@ func runC20(c *core.Ctx) {
 				c.Call(k.parser+"/partial-observe", in, func() { obs = lib.Observe(out.Val, lib.ObserveOpts{Depth: 1}) })
 				c20Report(c, "partial-value:"+k.parser, obs, gen.Shape{"class": "partial-value-of-verified-structure", "len": len(in), "of": len(w), "intact_verified": verified}, in)
 			}
+		})
+	}
+
+	// ---- correctly signed structures a parser may refuse for reasons other than framing: unusual
+	// content (reserved flag bits, zero or maximal timestamps and offsets, no leases / keys / entries,
+	// unknown key types, peer_size set, unsorted options), signed as it is. When the parser returns a
+	// value TOGETHER WITH an error, that value gets the method sweep like any other partial value —
+	// and, complete and correctly signed as it is, it must still not verify.
+	for _, k := range kinds {
+		k := k
+		p := lib.ByNameCached(k.parser)
+		c.Job("signed-unusual/"+k.parser, c.N(120, 2400), func(i int, r *core.Rand) {
+			what := ""
+			signedTweak = func(model any) {
+				pick := r.Pick(10)
+				switch m := model.(type) {
+				case *rm.RouterInfo:
+					switch pick % 5 {
+					case 0:
+						m.Published, what = 0, "published=0"
+					case 1:
+						m.PeerSize, what = byte(1+r.Pick(255)), "peer_size set"
+					case 2:
+						m.Addrs, what = nil, "no addresses"
+					case 3:
+						m.Options, what = rm.Mapping{Pairs: []rm.Pair{{K: []byte("z"), V: []byte("1")}, {K: []byte("a"), V: []byte("2")}}}, "unsorted options"
+					default:
+						m.Published, what = 1<<63+uint64(r.Pick(1000)), "published beyond int64"
+					}
+				case *rm.LeaseSet:
+					switch pick % 3 {
+					case 0:
+						m.Leases, what = nil, "no leases"
+					case 1:
+						for j := range m.Leases {
+							m.Leases[j].EndMs = 0
+						}
+						what = "lease end dates zero"
+					default:
+						if len(m.Leases) > 0 {
+							m.Leases[0].EndMs = 1<<63 + 5
+						}
+						what = "lease end date beyond int64"
+					}
+				case *rm.LeaseSet2:
+					switch pick % 7 {
+					case 0:
+						m.Flags |= uint16(1) << uint(3+r.Pick(13))
+						what = "reserved flag bits"
+					case 1:
+						m.Expires, what = 0, "expires=0"
+					case 2:
+						m.Published, what = 0, "published=0"
+					case 3:
+						m.Leases, what = nil, "no leases"
+					case 4:
+						m.Keys, what = []rm.EncKey{{Type: 0xFF01, Data: r.Bytes(5)}}, "only an unknown-type key"
+					case 5:
+						if len(m.Keys) > 0 {
+							m.Keys[0].Data = r.Bytes(len(m.Keys[0].Data) + 1)
+						}
+						what = "key length not that of its type"
+					default:
+						m.Published, m.Expires, what = 0xffffffff, 0xffff, "maximal published and expires"
+					}
+				case *rm.MetaLeaseSet:
+					switch pick % 5 {
+					case 0:
+						m.Flags |= uint16(1) << uint(2+r.Pick(14))
+						what = "reserved flag bits"
+					case 1:
+						m.Expires, what = 0, "expires=0"
+					case 2:
+						m.Published, what = 0, "published=0"
+					case 3:
+						m.Entries, what = nil, "no entries"
+					default:
+						for j := range m.Entries {
+							m.Entries[j].Type = byte(r.Pick(256))
+							m.Entries[j].Expires = 0
+						}
+						what = "entry types arbitrary, entry expires zero"
+					}
+				case *rm.EncryptedLeaseSet:
+					switch pick % 5 {
+					case 0:
+						m.Flags |= uint16(1) << uint(2+r.Pick(14))
+						what = "reserved flag bits"
+					case 1:
+						m.Expires, what = 0, "expires=0"
+					case 2:
+						m.Published, what = 0, "published=0"
+					case 3:
+						m.Inner, what = r.Bytes(r.Pick(61)), "inner data shorter than any ciphertext"
+					default:
+						m.Published, m.Expires, what = 0xffffffff, 0xffff, "maximal published and expires"
+					}
+				}
+			}
+			sc := k.mk(r, i)
+			signedTweak = nil
+			out, panicked, _, _ := callParser(c, *p, sc.bytes)
+			c.Eval(1)
+			if panicked {
+				return
+			}
+			c.OpResult(k.parser, out.Accepted)
+			c.Nontrivial([]byte(k.parser), sc.bytes)
+			if out.Accepted {
+				c.Bucket("signed-unusual/accepted/" + sc.kind + "/" + what)
+				return
+			}
+			c.Bucket("signed-unusual/refused/" + sc.kind + "/" + what)
+			if out.Val == nil {
+				return
+			}
+			rv := reflect.ValueOf(out.Val)
+			if rv.Kind() == reflect.Ptr && rv.IsNil() {
+				return
+			}
+			var obs []lib.Obs
+			c.Call(k.parser+"/partial-observe", sc.bytes, func() { obs = lib.Observe(out.Val, lib.ObserveOpts{Depth: 1}) })
+			c20Report(c, "partial-value:"+k.parser, obs, gen.Shape{"class": "value-returned-with-error-for-a-correctly-signed-structure", "content": what}, sc.bytes)
 		})
 	}
 }
